@@ -32,6 +32,8 @@ pub enum Kind {
     Keygen,
     Rekey,
     Setup,
+    /// re-encapsulation of one fixed, long-lived encapsulation under the current public key
+    Recaps,
 }
 
 #[derive(Clone, Copy, Debug)]
@@ -42,7 +44,7 @@ pub struct Sym {
 
 pub fn alphabet() -> Vec<Sym> {
     let mut v = vec![];
-    for kind in [Kind::Encaps, Kind::Encrypt, Kind::Header, Kind::HeaderEmpty, Kind::Keygen, Kind::Rekey, Kind::Setup] {
+    for kind in [Kind::Encaps, Kind::Encrypt, Kind::Header, Kind::HeaderEmpty, Kind::Keygen, Kind::Rekey, Kind::Setup, Kind::Recaps] {
         for inst in 0..2 {
             v.push(Sym { kind, inst });
         }
@@ -74,6 +76,8 @@ pub struct Ctx {
     pub mpk_bytes: Vec<u8>,
     /// right -> published H, as last seen
     pub published: BTreeMap<Vec<u8>, Vec<u8>>,
+    /// the long-lived encapsulation every `Recaps` call re-encapsulates (same for all sequences)
+    pub orig: Vec<u8>,
 }
 
 const PTX: &[u8] = b"identical plaintext";
@@ -144,6 +148,12 @@ pub fn step(c: &mut Ctx, s: Sym) -> Result<Fields, (String, String)> {
                 c.published.insert(r.clone(), k.h.clone());
             }
         }
+        Kind::Recaps => {
+            let orig = cosmian_cover_crypt::XEnc::deserialize(&c.orig).map_err(|e| ("C16.x".to_string(), format!("original: {e}")))?;
+            let (secret, enc) = cc.recaps(&c.msk, &mpk, &orig).map_err(|e| ("C16.x".to_string(), format!("recaps: {e}")))?;
+            f.push(("secret", secret.to_vec()));
+            enc_fields(&ser(&enc), &mut f);
+        }
         Kind::Setup => {
             let (msk, mpk) = cc.setup().map_err(|e| ("C16.x".to_string(), format!("setup: {e}")))?;
             let w = WMpk::decode(&ser(&mpk)).map_err(|e| ("C13.w".to_string(), e))?;
@@ -171,7 +181,14 @@ pub fn fresh_ctx(base_msk: &[u8], base_mpk: &[u8]) -> Ctx {
             published.insert(r.clone(), k.h.clone());
         }
     }
-    Ctx { cc: [Covercrypt::default(), Covercrypt::default()], msk, mpk_bytes: base_mpk.to_vec(), published }
+    static ORIG: std::sync::OnceLock<(Vec<u8>, Vec<u8>)> = std::sync::OnceLock::new();
+    let (for_mpk, orig) = ORIG.get_or_init(|| {
+        let mpk = cosmian_cover_crypt::MasterPublicKey::deserialize(base_mpk).expect("base mpk");
+        let (_, enc) = Covercrypt::default().encaps(&mpk, &AccessPolicy::parse("A::x || H::hi").unwrap()).expect("original encapsulation");
+        (base_mpk.to_vec(), ser(&enc))
+    });
+    assert!(for_mpk == base_mpk, "one base per process");
+    Ctx { cc: [Covercrypt::default(), Covercrypt::default()], msk, mpk_bytes: base_mpk.to_vec(), published, orig: orig.clone() }
 }
 
 /// Runs one sequence; returns the hashes of its fields (kind-tagged) or a failure.
@@ -261,7 +278,7 @@ pub fn check(prop: &str, tier: &str) -> i32 {
     let mut c = fresh_ctx(&base_msk, &base_mpk);
     let mut long_fields = 0u64;
     let mut seen: HashMap<u128, u32> = HashMap::new();
-    let plan = [(Kind::Encaps, n_enc), (Kind::Encrypt, n_ctx), (Kind::Keygen, n_key), (Kind::Rekey, n_rekey), (Kind::Header, n_rekey), (Kind::HeaderEmpty, n_rekey), (Kind::Encaps, n_rekey)];
+    let plan = [(Kind::Encaps, n_enc), (Kind::Encrypt, n_ctx), (Kind::Keygen, n_key), (Kind::Rekey, n_rekey), (Kind::Header, n_rekey), (Kind::HeaderEmpty, n_rekey), (Kind::Encaps, n_rekey), (Kind::Recaps, n_rekey)];
     let mut call_no = 0u32;
     let mut ad_cases = 0u64;
     'outer: for (kind, n) in plan {
